@@ -314,7 +314,7 @@ contract(
     raises=[("ValueError", lambda a: Not(Or(within((a.i, a.j, a.k), 1, 3), within((a.i, a.j, a.k), 0, 2))))],
     ensures=lambda a, r: {"sign": eq(r, perm_sign(a.i, a.j, a.k))},
     gen=lambda rng, case: dict(i=rng.randint(-1, 5), j=rng.randint(-1, 5), k=rng.randint(-1, 5)),
-    note="all integer triples, not only {0..4}^3",
+    note="all integer triples, not only {0..4}^3", abstract_nl=False,
 )
 
 contract(
@@ -323,4 +323,5 @@ contract(
     raises=[("ValueError", lambda a: Not(Or(within((a.i, a.j, a.k, a.o), 1, 4), within((a.i, a.j, a.k, a.o), 0, 3))))],
     ensures=lambda a, r: {"sign": eq(r, perm_sign(a.i, a.j, a.k, a.o))},
     gen=lambda rng, case: dict(i=rng.randint(-1, 5), j=rng.randint(-1, 5), k=rng.randint(-1, 5), o=rng.randint(-1, 5)),
+    abstract_nl=False,
 )
